@@ -183,7 +183,7 @@ def main():
         },
         "engines": [{"name": "pyvc", "path": "/verif/pyvc", "serves_properties": sorted(CHECKS), "kind_free_text": "self-built VC generator: symbolic execution of the real Python AST against sidecar contracts, z3 (cvc5 for unknowns), exhaustive ground evaluation, bounded stand-ins labelled as such"}],
         "checks": checks,
-        "notes": "exit codes of ./check: 0 held, 1 violation (VIOLATION line), 2 undecided, 3 checker fault. Known findings: /verif/known_findings.json",
+        "notes": "exit codes of ./check: 0 held, 1 violation (VIOLATION line), 2 undecided (an obligation the solver or the executor's subset cannot decide, a contract whose loop or code shape a refactoring removed: re-annotation needed; never a violation), 3 checker fault. Known findings: /verif/known_findings.json (open findings are matched by exact obligation / bounded-group name; 'fixed:' lines suppress nothing). Every check also runs the witness cases under /verif/witness/<id>/ (concrete inputs that violate or once violated the property; bounded, never counted as proved). Self-tests of the machinery, not run by the registered commands: tools/seed_matrix.py (100 property-breaking changes under seeded/, all caught) and tools/neutral_matrix.py (80 behaviour-preserving refactorings under neutral/, none may alarm).",
         "not_applicable": na,
     }
     json.dump(m, open(os.path.join(HERE, "MANIFEST.json"), "w"), indent=1)
